@@ -146,18 +146,23 @@ CliOpStart(r) ==
   /\ LET o == COp(r) IN
      /\ o.op # "new" => cs[r].id # 0
      \* a legal application does not go on sending after a send has failed
-     /\ o.op \in {"send", "half"} => ~cs[r].sfailed
+     /\ o.op \in {"send", "half", "badsend"} => ~cs[r].sfailed
      /\ app' = [app EXCEPT ![r].c.busy = o.op]
-     /\ IF o.op = "send"
-        THEN /\ SetC(r, [cs[r] EXCEPT !.snd = "need", !.sleft = o.n, !.ssize = o.n, !.sfirst = TRUE, !.nsent = @ + 1])
+     /\ CASE o.op = "send" ->
+             /\ SetC(r, [cs[r] EXCEPT !.snd = "need", !.sleft = o.n, !.ssize = o.n, !.sfirst = TRUE, !.nsent = @ + 1])
              /\ OOpStart(EvOpStart("c", r, "send", cs[r].nsent, o.n, 0))
-        ELSE /\ UNCHANGED cs
+          [] o.op = "badsend" ->
+             \* SendMsg with a message that cannot be encoded
+             /\ UNCHANGED cs
+             /\ OOpStart(EvOpStart("c", r, "send", cs[r].nsent, 0, 0) @@ [bad |-> TRUE])
+          [] OTHER ->
+             /\ UNCHANGED cs
              /\ OOpStart(EvOpStart("c", r, o.op, 0, 0, 0))
   /\ UNCHANGED <<c2s, s2c, car, cli, srv, ss, nf>>
 
 \* ... after a failed send the remaining send-side ops of the script are skipped
 CliSkipOp(r) ==
-  /\ CBusy(r) = "" /\ app[r].c.pc <= Len(CScript[r]) /\ COp(r).op \in {"send", "half"} /\ cs[r].sfailed
+  /\ CBusy(r) = "" /\ app[r].c.pc <= Len(CScript[r]) /\ COp(r).op \in {"send", "half", "badsend"} /\ cs[r].sfailed
   /\ app' = [app EXCEPT ![r].c.pc = @ + 1]
   /\ OSkip
   /\ UNCHANGED <<c2s, s2c, car, cli, cs, srv, ss, nf>>
@@ -255,6 +260,14 @@ CliSendRet(r) ==
   /\ CDoneOp(r)
   /\ OOpRet(EvOpRet("c", r, "send", "ok", 0, cs[r].nsent - 1))
   /\ UNCHANGED <<c2s, s2c, car, cli, srv, ss, nf>>
+
+\* SendMsg with a message that cannot be encoded (proto.Marshal fails): refused with the encoder's error, nothing is
+\* sent and nothing about the stream changes - it stays usable
+CliBadSendRet(r) ==
+  /\ CBusy(r) = "badsend"
+  /\ CDoneOp(r)
+  /\ OOpRet(EvOpRet("c", r, "send", "err", -1, cs[r].nsent))
+  /\ UNCHANGED <<c2s, s2c, car, cli, cs, srv, ss, nf>>
 
 \* CloseSend (:646-667): refused once the stream is done or already half-closed
 CliHalf(r) ==
@@ -745,7 +758,7 @@ InternalOf(r) ==
   \/ cs[r].snd = "need" /\ (cs[r].swin > 0 \/ cs[r].ctx # "live")
   \/ cs[r].snd = "res"
   \/ CBusy(r) = "send" /\ cs[r].snd = "done"
-  \/ CBusy(r) = "half"
+  \/ CBusy(r) = "half" \/ CBusy(r) = "badsend"
   \/ CBusy(r) = "header" /\ (cs[r].hdr \/ cs[r].published \/ cs[r].ctx # "live")
   \/ CBusy(r) = "trailer"
   \/ SBusy(r) \in MetaOps
@@ -768,7 +781,7 @@ InternalOf(r) ==
   \/ SBusy(r) = "ret" /\ ss[r].finH = 5
   \/ ss[r].closeOwed \in {1, 2}
   \/ ss[r].watch = "wait" /\ ss[r].ctx # "live"
-  \/ CBusy(r) = "" /\ app[r].c.pc <= Len(CScript[r]) /\ COp(r).op \in {"send", "half"} /\ cs[r].sfailed
+  \/ CBusy(r) = "" /\ app[r].c.pc <= Len(CScript[r]) /\ COp(r).op \in {"send", "half", "badsend"} /\ cs[r].sfailed
   \/ ss[r].h = "running" /\ SBusy(r) = "" /\ app[r].s.pc <= Len(SScript[r]) /\ SOp(r).op = "send" /\ ss[r].sfailed
 
 InternalEnabled ==
@@ -801,7 +814,7 @@ Quiesce ==
 Internal ==
   \/ \E r \in RPCs :
        \/ CliAlloc(r) \/ CliSendNew(r) \/ CliNewRet(r) \/ CliNewFail(r)
-       \/ CliReserve(r) \/ CliEmit(r) \/ CliSendAbort(r) \/ CliSendRet(r)
+       \/ CliReserve(r) \/ CliEmit(r) \/ CliSendAbort(r) \/ CliSendRet(r) \/ CliBadSendRet(r)
        \/ CliHalf(r) \/ CliHalfRet(r)
        \/ CliDequeue(r) \/ CliCredit(r) \/ CliRecvMsgRet(r) \/ CliRecvEnd(r)
        \/ CliFinStep(r) \/ CliWatchFire(r) \/ CliCancelCAS(r) \/ CliCancelRcv(r) \/ CliEmitCancel(r)
@@ -835,6 +848,7 @@ Next ==
   \/ \E r \in RPCs : CliEmitFail(r)
   \/ \E r \in RPCs : CliSendAbort(r)
   \/ \E r \in RPCs : CliSendRet(r)
+  \/ \E r \in RPCs : CliBadSendRet(r)
   \/ \E r \in RPCs : CliHalf(r)
   \/ \E r \in RPCs : CliHalfRet(r)
   \/ \E r \in RPCs : CliDequeue(r)
